@@ -123,6 +123,24 @@ COMPB(inner, ~(x - y))
 COMPB(inner_curry, ~(x - y))
 COMPB(outer, ~x - y)
 COMPB(extract, ~x - y)
+COMPB(extract_apply, ~x - y)
+/* first operand a non-ufunc view: flip(a, 1) - b */
+void h_compb_extract_apply_flip(void){ LOCALS; u32 db[CELLS]; in_data(db, MAXE*MAXE); u64 nd = 2;
+  ex[0] = n0; ex[1] = n1; in_index(idx, ex, nd, MAXE - 1);
+  int r = k_compb_extract_apply_flip(shape, data, db, OUTS, same); agree(r, 2, ex, nd, rc, dims, shapes, vals);
+  u32 x = data[idx[0]*n1 + (n1 - 1 - idx[1])], y = db[idx[0]*n1 + idx[1]]; ASSERT(vals[0] == (u32)(x - y), "element == flip(a,1)[i] - b[i]");
+  ASSERT(same[0] == 1 && same[1] == 1, "extracted operands are the addresses of the leaves, in order"); REACHED(); }
+/* the sub-view is the SECOND operand: b - ~a. Known finding (props/C14.py): a function composition is a linear chain whose intermediate result always becomes the
+ * FIRST operand of the next functor, so the extracted composition subtract*invert applied to the extracted operands (b, a) computes ~b - a. */
+void h_compb_extract_second(void){ LOCALS; u32 db[CELLS]; in_data(db, MAXE*MAXE); u64 nd = 2;
+  ex[0] = n0; ex[1] = n1; in_index(idx, ex, nd, MAXE - 1);
+  u64 g = idx[0]*n1 + idx[1]; u32 x = data[g], y = db[g];
+#ifdef KF_C14_NESTED_SECOND_OPERAND
+  ASSUME((u32)(~y - x) == (u32)(y - ~x));      /* region of the finding: wherever the mis-associated value differs from the view's */
+#endif
+  int r = k_compb_extract_second(shape, data, db, OUTS, same); agree(r, 2, ex, nd, rc, dims, shapes, vals);
+  ASSERT(vals[0] == (u32)(y - ~x), "element == b[i] - ~a[i]");
+  ASSERT(same[0] == 2, "two extracted operands"); REACHED(); }
 void h_extract_repeated(void){ u64 shape[2]; u32 da[CELLS], db[CELLS], same[4] = {0}; in_shape(shape, 2); in_data(da, MAXE*MAXE); in_data(db, MAXE*MAXE);
   int r = k_extract_repeated(shape, da, db, same);
   ASSERT(r == 1, "view exists"); ASSERT(same[0] == 3, "one extracted operand per leaf occurrence");
